@@ -37,7 +37,7 @@ TIERS = {
     "quick": dict(export=[("all", 3, 100000), ("conn", 7, 1200), ("store", 5, 1200)], check=[(4, False)],
                   extended=2000, reccases=150, random=200, rlen=40, chunk=7000, par=6),
     "thorough": dict(export=[("all", 4, 100000), ("conn", 8, 10000), ("store", 6, 10000)], check=[(6, False), (5, True)],
-                     extended=15000, reccases=792, random=3000, rlen=60, chunk=20000, par=6),
+                     extended=12000, reccases=792, random=2500, rlen=60, chunk=20000, par=6),
 }
 
 
